@@ -15,7 +15,7 @@ use std::net::{IpAddr, Ipv4Addr, Ipv6Addr};
 
 /// proto: Some(p) = concrete protocol number, None = arbitrary unsupported protocol.
 /// m = request transport bytes, n = length of the transport packet the stub returns.
-fn ipv4_case(proto: Option<u8>, m: usize, n: usize) {
+fn ipv4_case(proto: Option<u8>, m: usize, n: usize, lists: bool) {
     let mut buf: [u8; 44] = kani::any();
     // the request header is arbitrary (version, IHL, total length lying freely) except that
     // pnet must accept the 20-byte minimum: it only needs the buffer length
@@ -33,8 +33,10 @@ fn ipv4_case(proto: Option<u8>, m: usize, n: usize) {
     s_set.insert(IpAddr::V6(a6));
     let mut d_set = HashSet::new();
     d_set.insert(IpAddr::V4(d4));
-    let s_on: bool = kani::any();
-    let d_on: bool = kani::any();
+    // lists == false: the scope lists are absent (concretely), so that the well-formedness
+    // instances do not pay for the container model; the filters have their own instances
+    let s_on: bool = if lists { kani::any() } else { false };
+    let d_on: bool = if lists { kani::any() } else { false };
     let mut masscanned = ms_plain([0, 0], any_mac());
     if s_on {
         masscanned.self_ip_list = Some(&s_set);
@@ -95,6 +97,10 @@ fn ipv4_case(proto: Option<u8>, m: usize, n: usize) {
     if i != ck && i != ck + 1 && !(buf[9] == 17 && (i == 4 || i == 5)) {
         assert!(l4[i] == rec.bytes[i], "C03: transport bytes altered by the IPv4 layer");
     }
+    if lists {
+        kani::cover!(true, "reply emitted");
+        return;
+    }
     match buf[9] {
         1 => assert!(csum_ok(0, l4), "C04: ICMP checksum invalid"),
         6 => assert!(csum_ok(pseudo4(&b[12..16], &b[16..20], 6, n), l4), "C04: TCP checksum invalid over the IPv4 pseudo-header"),
@@ -108,32 +114,30 @@ fn ipv4_case(proto: Option<u8>, m: usize, n: usize) {
 }
 
 //# harness: c04_ipv4_tcp_20
-//# props: C04 C03 C02 C01
+//# props: C04 C03 C01
 //# tier: quick
 //# encodes: layer_3::ipv4::repl
 //# encodes: pnet_packet checksum helpers (icmp::checksum, tcp::ipv4_checksum, udp::ipv4_checksum)
-//# bounds: 20-byte IPv4 request header fully symbolic (version, IHL, total length, flags, addresses may lie freely), protocol = TCP, 20 transport bytes in the request; layer-4 reply of 20 arbitrary bytes or silence; self-IP list absent or {a4,a6} symbolic; deny list absent or {d4} symbolic
+//# bounds: 20-byte IPv4 request header fully symbolic (version, IHL, total length, flags, addresses may lie freely), protocol = TCP, 20 transport bytes in the request; layer-4 reply of 20 arbitrary bytes or silence; no self-IP list and no deny list (the scope filters are decided by c02_ipv4_scope_* and *_other_proto)
 //# stubs: layer_4::{icmpv4,tcp,udp}::repl -> None or a transport packet of 20 arbitrary bytes (UDP: length field = 20, the lemma of c03_udp_*)
 //# out: transport replies of other lengths (the checksum loop is uniform in the length; ip_len as u16 can only truncate above 65535 bytes); larger address sets (membership is the container contract)
 //# cover: reply emitted
 //# cover: layer 4 silent
-//# cover: dropped: destination not in self-IP list
-//# cover: dropped: source on deny list
 #[kani::proof]
 #[kani::unwind(26)]
 #[kani::stub(crate::layer_4::icmpv4::repl, crate::verif_util::l4_icmpv4_stub)]
 #[kani::stub(crate::layer_4::tcp::repl, crate::verif_util::l4_tcp_stub)]
 #[kani::stub(crate::layer_4::udp::repl, crate::verif_util::l4_udp_stub)]
 fn c04_ipv4_tcp_20() {
-    ipv4_case(Some(6), 20, 20)
+    ipv4_case(Some(6), 20, 20, false)
 }
 
 //# harness: c04_ipv4_tcp_23
-//# props: C04 C03 C02
+//# props: C04 C03
 //# tier: thorough
 //# encodes: layer_3::ipv4::repl
 //# encodes: pnet_packet checksum helpers (icmp::checksum, tcp::ipv4_checksum, udp::ipv4_checksum)
-//# bounds: 20-byte IPv4 request header fully symbolic (version, IHL, total length, flags, addresses may lie freely), protocol = TCP, 21 transport bytes in the request; layer-4 reply of 23 arbitrary bytes or silence; self-IP list absent or {a4,a6} symbolic; deny list absent or {d4} symbolic
+//# bounds: 20-byte IPv4 request header fully symbolic (version, IHL, total length, flags, addresses may lie freely), protocol = TCP, 21 transport bytes in the request; layer-4 reply of 23 arbitrary bytes or silence; no self-IP list and no deny list (the scope filters are decided by c02_ipv4_scope_* and *_other_proto)
 //# stubs: layer_4::{icmpv4,tcp,udp}::repl -> None or a transport packet of 23 arbitrary bytes (UDP: length field = 23, the lemma of c03_udp_*)
 //# out: transport replies of other lengths (the checksum loop is uniform in the length; ip_len as u16 can only truncate above 65535 bytes); larger address sets (membership is the container contract)
 //# cover: reply emitted
@@ -143,15 +147,15 @@ fn c04_ipv4_tcp_20() {
 #[kani::stub(crate::layer_4::tcp::repl, crate::verif_util::l4_tcp_stub)]
 #[kani::stub(crate::layer_4::udp::repl, crate::verif_util::l4_udp_stub)]
 fn c04_ipv4_tcp_23() {
-    ipv4_case(Some(6), 21, 23)
+    ipv4_case(Some(6), 21, 23, false)
 }
 
 //# harness: c04_ipv4_udp_9
-//# props: C04 C03 C02 C01
+//# props: C04 C03 C01
 //# tier: quick
 //# encodes: layer_3::ipv4::repl
 //# encodes: pnet_packet checksum helpers (icmp::checksum, tcp::ipv4_checksum, udp::ipv4_checksum)
-//# bounds: 20-byte IPv4 request header fully symbolic (version, IHL, total length, flags, addresses may lie freely), protocol = UDP, 8 transport bytes in the request; layer-4 reply of 9 arbitrary bytes or silence; self-IP list absent or {a4,a6} symbolic; deny list absent or {d4} symbolic
+//# bounds: 20-byte IPv4 request header fully symbolic (version, IHL, total length, flags, addresses may lie freely), protocol = UDP, 8 transport bytes in the request; layer-4 reply of 9 arbitrary bytes or silence; no self-IP list and no deny list (the scope filters are decided by c02_ipv4_scope_* and *_other_proto)
 //# stubs: layer_4::{icmpv4,tcp,udp}::repl -> None or a transport packet of 9 arbitrary bytes (UDP: length field = 9, the lemma of c03_udp_*)
 //# out: transport replies of other lengths (the checksum loop is uniform in the length; ip_len as u16 can only truncate above 65535 bytes); larger address sets (membership is the container contract)
 //# cover: reply emitted
@@ -162,15 +166,15 @@ fn c04_ipv4_tcp_23() {
 #[kani::stub(crate::layer_4::tcp::repl, crate::verif_util::l4_tcp_stub)]
 #[kani::stub(crate::layer_4::udp::repl, crate::verif_util::l4_udp_stub)]
 fn c04_ipv4_udp_9() {
-    ipv4_case(Some(17), 8, 9)
+    ipv4_case(Some(17), 8, 9, false)
 }
 
 //# harness: c04_ipv4_udp_12
-//# props: C04 C03 C02
+//# props: C04 C03
 //# tier: thorough
 //# encodes: layer_3::ipv4::repl
 //# encodes: pnet_packet checksum helpers (icmp::checksum, tcp::ipv4_checksum, udp::ipv4_checksum)
-//# bounds: 20-byte IPv4 request header fully symbolic (version, IHL, total length, flags, addresses may lie freely), protocol = UDP, 10 transport bytes in the request; layer-4 reply of 12 arbitrary bytes or silence; self-IP list absent or {a4,a6} symbolic; deny list absent or {d4} symbolic
+//# bounds: 20-byte IPv4 request header fully symbolic (version, IHL, total length, flags, addresses may lie freely), protocol = UDP, 10 transport bytes in the request; layer-4 reply of 12 arbitrary bytes or silence; no self-IP list and no deny list (the scope filters are decided by c02_ipv4_scope_* and *_other_proto)
 //# stubs: layer_4::{icmpv4,tcp,udp}::repl -> None or a transport packet of 12 arbitrary bytes (UDP: length field = 12, the lemma of c03_udp_*)
 //# out: transport replies of other lengths (the checksum loop is uniform in the length; ip_len as u16 can only truncate above 65535 bytes); larger address sets (membership is the container contract)
 //# cover: reply emitted
@@ -180,15 +184,15 @@ fn c04_ipv4_udp_9() {
 #[kani::stub(crate::layer_4::tcp::repl, crate::verif_util::l4_tcp_stub)]
 #[kani::stub(crate::layer_4::udp::repl, crate::verif_util::l4_udp_stub)]
 fn c04_ipv4_udp_12() {
-    ipv4_case(Some(17), 10, 12)
+    ipv4_case(Some(17), 10, 12, false)
 }
 
 //# harness: c04_ipv4_icmp_8
-//# props: C04 C03 C02 C01
+//# props: C04 C03 C01
 //# tier: quick
 //# encodes: layer_3::ipv4::repl
 //# encodes: pnet_packet checksum helpers (icmp::checksum, tcp::ipv4_checksum, udp::ipv4_checksum)
-//# bounds: 20-byte IPv4 request header fully symbolic (version, IHL, total length, flags, addresses may lie freely), protocol = ICMP, 8 transport bytes in the request; layer-4 reply of 8 arbitrary bytes or silence; self-IP list absent or {a4,a6} symbolic; deny list absent or {d4} symbolic
+//# bounds: 20-byte IPv4 request header fully symbolic (version, IHL, total length, flags, addresses may lie freely), protocol = ICMP, 8 transport bytes in the request; layer-4 reply of 8 arbitrary bytes or silence; no self-IP list and no deny list (the scope filters are decided by c02_ipv4_scope_* and *_other_proto)
 //# stubs: layer_4::{icmpv4,tcp,udp}::repl -> None or a transport packet of 8 arbitrary bytes (UDP: length field = 8, the lemma of c03_udp_*)
 //# out: transport replies of other lengths (the checksum loop is uniform in the length; ip_len as u16 can only truncate above 65535 bytes); larger address sets (membership is the container contract)
 //# cover: reply emitted
@@ -199,15 +203,15 @@ fn c04_ipv4_udp_12() {
 #[kani::stub(crate::layer_4::tcp::repl, crate::verif_util::l4_tcp_stub)]
 #[kani::stub(crate::layer_4::udp::repl, crate::verif_util::l4_udp_stub)]
 fn c04_ipv4_icmp_8() {
-    ipv4_case(Some(1), 8, 8)
+    ipv4_case(Some(1), 8, 8, false)
 }
 
 //# harness: c04_ipv4_icmp_11
-//# props: C04 C03 C02
+//# props: C04 C03
 //# tier: thorough
 //# encodes: layer_3::ipv4::repl
 //# encodes: pnet_packet checksum helpers (icmp::checksum, tcp::ipv4_checksum, udp::ipv4_checksum)
-//# bounds: 20-byte IPv4 request header fully symbolic (version, IHL, total length, flags, addresses may lie freely), protocol = ICMP, 5 transport bytes in the request; layer-4 reply of 11 arbitrary bytes or silence; self-IP list absent or {a4,a6} symbolic; deny list absent or {d4} symbolic
+//# bounds: 20-byte IPv4 request header fully symbolic (version, IHL, total length, flags, addresses may lie freely), protocol = ICMP, 5 transport bytes in the request; layer-4 reply of 11 arbitrary bytes or silence; no self-IP list and no deny list (the scope filters are decided by c02_ipv4_scope_* and *_other_proto)
 //# stubs: layer_4::{icmpv4,tcp,udp}::repl -> None or a transport packet of 11 arbitrary bytes (UDP: length field = 11, the lemma of c03_udp_*)
 //# out: transport replies of other lengths (the checksum loop is uniform in the length; ip_len as u16 can only truncate above 65535 bytes); larger address sets (membership is the container contract)
 //# cover: reply emitted
@@ -217,7 +221,7 @@ fn c04_ipv4_icmp_8() {
 #[kani::stub(crate::layer_4::tcp::repl, crate::verif_util::l4_tcp_stub)]
 #[kani::stub(crate::layer_4::udp::repl, crate::verif_util::l4_udp_stub)]
 fn c04_ipv4_icmp_11() {
-    ipv4_case(Some(1), 5, 11)
+    ipv4_case(Some(1), 5, 11, false)
 }
 
 //# harness: c02_ipv4_other_proto
@@ -235,7 +239,7 @@ fn c04_ipv4_icmp_11() {
 #[kani::stub(crate::layer_4::tcp::repl, crate::verif_util::l4_tcp_stub)]
 #[kani::stub(crate::layer_4::udp::repl, crate::verif_util::l4_udp_stub)]
 fn c02_ipv4_other_proto() {
-    ipv4_case(None, 4, 8)
+    ipv4_case(None, 4, 8, true)
 }
 
 //# harness: c01_ipv4_tcp_short
@@ -253,7 +257,7 @@ fn c02_ipv4_other_proto() {
 #[kani::stub(crate::layer_4::tcp::repl, crate::verif_util::l4_tcp_stub)]
 #[kani::stub(crate::layer_4::udp::repl, crate::verif_util::l4_udp_stub)]
 fn c01_ipv4_tcp_short() {
-    ipv4_case(Some(6), 19, 20)
+    ipv4_case(Some(6), 19, 20, true)
 }
 
 //# harness: c01_ipv4_udp_short
@@ -271,7 +275,7 @@ fn c01_ipv4_tcp_short() {
 #[kani::stub(crate::layer_4::tcp::repl, crate::verif_util::l4_tcp_stub)]
 #[kani::stub(crate::layer_4::udp::repl, crate::verif_util::l4_udp_stub)]
 fn c01_ipv4_udp_short() {
-    ipv4_case(Some(17), 7, 8)
+    ipv4_case(Some(17), 7, 8, true)
 }
 
 //# harness: c01_ipv4_icmp_short
@@ -289,7 +293,7 @@ fn c01_ipv4_udp_short() {
 #[kani::stub(crate::layer_4::tcp::repl, crate::verif_util::l4_tcp_stub)]
 #[kani::stub(crate::layer_4::udp::repl, crate::verif_util::l4_udp_stub)]
 fn c01_ipv4_icmp_short() {
-    ipv4_case(Some(1), 3, 8)
+    ipv4_case(Some(1), 3, 8, true)
 }
 
 //# harness: c01_ipv4_empty
@@ -307,7 +311,7 @@ fn c01_ipv4_icmp_short() {
 #[kani::stub(crate::layer_4::tcp::repl, crate::verif_util::l4_tcp_stub)]
 #[kani::stub(crate::layer_4::udp::repl, crate::verif_util::l4_udp_stub)]
 fn c01_ipv4_empty() {
-    ipv4_case(Some(6), 0, 20)
+    ipv4_case(Some(6), 0, 20, true)
 }
 
 fn ipv4_events(proto: Option<u8>, m: usize, n: usize) {
@@ -391,4 +395,40 @@ fn c20_ipv4_events_icmp() {
 #[kani::stub(crate::layer_4::udp::repl, crate::verif_util::l4_udp_stub)]
 fn c20_ipv4_events_tcp_short() {
     ipv4_events(Some(6), 19, 20)
+}
+
+//# harness: c02_ipv4_scope_udp
+//# props: C02 C03 C01
+//# tier: quick
+//# encodes: layer_3::ipv4::repl (scope filters and address mirroring)
+//# bounds: IPv4 request header symbolic, protocol 17, 8 transport bytes; layer-4 reply of 8 arbitrary bytes or silence; self-IP list absent or {a4,a6} symbolic; deny list absent or one symbolic address; transport checksums are NOT asserted here (decided by c04_ipv4_*)
+//# stubs: layer-4 entry points -> None or a transport packet of 8 arbitrary bytes
+//# cover: reply emitted
+//# cover: dropped: destination not in self-IP list
+//# cover: dropped: source on deny list
+//# cover: layer 4 silent
+#[kani::proof]
+#[kani::unwind(14)]
+#[kani::stub(crate::layer_4::icmpv4::repl, crate::verif_util::l4_icmpv4_stub)]
+#[kani::stub(crate::layer_4::tcp::repl, crate::verif_util::l4_tcp_stub)]
+#[kani::stub(crate::layer_4::udp::repl, crate::verif_util::l4_udp_stub)]
+fn c02_ipv4_scope_udp() {
+    ipv4_case(Some(17), 8, 8, true)
+}
+
+//# harness: c02_ipv4_scope_icmp
+//# props: C02 C03 C01
+//# tier: thorough
+//# encodes: layer_3::ipv4::repl (scope filters and address mirroring)
+//# bounds: IPv4 request header symbolic, protocol 1, 8 transport bytes; layer-4 reply of 8 arbitrary bytes or silence; self-IP list absent or {a4,a6} symbolic; deny list absent or one symbolic address; transport checksums are NOT asserted here (decided by c04_ipv4_*)
+//# stubs: layer-4 entry points -> None or a transport packet of 8 arbitrary bytes
+//# cover: reply emitted
+//# cover: dropped: destination not in self-IP list
+#[kani::proof]
+#[kani::unwind(14)]
+#[kani::stub(crate::layer_4::icmpv4::repl, crate::verif_util::l4_icmpv4_stub)]
+#[kani::stub(crate::layer_4::tcp::repl, crate::verif_util::l4_tcp_stub)]
+#[kani::stub(crate::layer_4::udp::repl, crate::verif_util::l4_udp_stub)]
+fn c02_ipv4_scope_icmp() {
+    ipv4_case(Some(1), 8, 8, true)
 }
